@@ -1,7 +1,11 @@
 (* visitor/src/resolve_type.rs and the resolveType hooks of lib.rs
    (visit_mut_call_expr, visit_mut_var_declarator, interface / alias registration,
     inject_define_component_option).  Recursion through the user's declarations runs on
-   fuel; running out of fuel is recorded as [panicked] (the real code overflows the stack). *)
+   fuel; running out of fuel is recorded as [panicked].  The real code overflowed the stack on
+   self- and mutually-referential declarations until fix 9b943db; it now remembers the names and
+   indexed accesses being resolved and reports a reference back to one of them ("Circular type
+   reference.").  That bookkeeping is NOT modelled: on cyclic declarations model (fuel) and code
+   (diagnostic) differ, and the cyclic stream of the C08 check judges the real run alone. *)
 From VJ Require Import Model.Str Model.Json Model.Ast Model.State Model.Util.
 
 Section Types.
